@@ -22,7 +22,7 @@ GROUPS = {
     "dm": (True, "multi"), "um": (False, "multi"),
     "dw": (True, "weighted"), "uw": (False, "weighted"),
 }
-N_FAMILIES = {"dn": 1, "un": 1, "dl": 6, "ul": 6, "dm": 1, "um": 1, "dw": 1, "uw": 1}
+N_FAMILIES = {"dn": 1, "un": 1, "dl": 6, "ul": 6, "dm": 1, "um": 1, "dw": 2, "uw": 2}
 
 COMMON = ["resize", "clearEdges", "removeDuplicateEdges", "removeSelfLoops", "removeVertexFromEdgeList",
           "removeEdge", "addEdge"]
